@@ -34,6 +34,12 @@ type C17Plan struct {
 	Backlog  int          `json:"backlog,omitempty"` // resume mode: notifications 1..Backlog
 	Cuts     []int        `json:"cuts,omitempty"`    // resume mode: drop the connection after this many sent messages
 	Segments []C17Segment `json:"segments,omitempty"`
+	// ReadyLag[n]: on its n-th accept the application declares ready with NextMessageID()-lag (at
+	// least 1): it asks for a repeat of notifications it was handed but did not keep
+	ReadyLag []int `json:"ready_lag,omitempty"`
+	// PreAccept[n]: on the n-th connection the server sends that many tx notifications, numbered
+	// from the id the client expects, before its accept (they must be ignored and not counted)
+	PreAccept []int `json:"pre_accept,omitempty"`
 }
 
 type flagSetter struct {
@@ -72,7 +78,22 @@ func c17Run(plan *C17Plan) (*c16Violation, map[string]bool) {
 	segDone := make(chan int, 64)
 	seg := 0
 	cursor := uint64(1) // resume mode: next backlog id an honest server would send (set from ready)
+	guess := uint64(1)  // the id the client expects next, as far as the server can tell
 	srv, err := newFakeServer(func(sc *srvConn) {
+		mu.Lock()
+		pre := 0
+		if sc.index < len(plan.PreAccept) {
+			pre = plan.PreAccept[sc.index]
+		}
+		g := guess
+		mu.Unlock()
+		for k := 0; k < pre; k++ {
+			_ = sc.send(c17TxMsg(g + uint64(k)))
+			flags.set("data-before-accept")
+		}
+		if pre > 0 {
+			time.Sleep(20 * time.Millisecond)
+		}
 		if err := sc.sendAccept(""); err != nil {
 			segDone <- -1
 			return
@@ -86,6 +107,9 @@ func c17Run(plan *C17Plan) (*c16Violation, map[string]bool) {
 		readies[sc.index] = rd.NextMessageID
 		my := seg
 		seg++
+		mu.Unlock()
+		mu.Lock()
+		guess = rd.NextMessageID
 		mu.Unlock()
 		next := rd.NextMessageID // what an honest server would send next on this connection
 		push := func(kind string, id uint64) {
@@ -101,6 +125,9 @@ func c17Run(plan *C17Plan) (*c16Violation, map[string]bool) {
 			}
 			mu.Lock()
 			sent = append(sent, c17Sent{kind, id, sc.index})
+			if (kind == "tx" || kind == "update") && id == guess {
+				guess = id + 1
+			}
 			mu.Unlock()
 		}
 		if plan.Resume {
@@ -170,6 +197,9 @@ func c17Run(plan *C17Plan) (*c16Violation, map[string]bool) {
 		return &c16Violation{"C17/harness/client", err.Error()}, flagsRaw
 	}
 	defer tc.stop()
+	tc.h1.mu.Lock()
+	tc.h1.readyLag = plan.ReadyLag
+	tc.h1.mu.Unlock()
 	want := len(plan.Segments)
 	if plan.Resume {
 		want = len(plan.Cuts) + 1
@@ -205,6 +235,8 @@ func c17Run(plan *C17Plan) (*c16Violation, map[string]bool) {
 	var ref []del
 	lastDelivered := uint64(0)
 	haveFirst := false
+	nAcc := 0
+	modelNext := uint64(1)
 	for conn := 0; conn <= maxConn; conn++ {
 		expected, ok := readyCopy[conn]
 		if !ok {
@@ -214,8 +246,16 @@ func c17Run(plan *C17Plan) (*c16Violation, map[string]bool) {
 			lastDelivered = expected - 1
 			haveFirst = true
 		}
-		if expected != lastDelivered+1 {
-			return &c16Violation{"C17/ready-value", fmt.Sprintf("connection %d declared ready with %d, last delivered id was %d", conn, expected, lastDelivered)}, flagsRaw
+		wantReady := lastDelivered + 1
+		if nAcc < len(plan.ReadyLag) && uint64(plan.ReadyLag[nAcc]) < wantReady {
+			if plan.ReadyLag[nAcc] > 0 {
+				flags.set("repeat-requested")
+			}
+			wantReady -= uint64(plan.ReadyLag[nAcc])
+		}
+		nAcc++
+		if expected != wantReady {
+			return &c16Violation{"C17/ready-value", fmt.Sprintf("connection %d declared ready with %d, last delivered id was %d (requested lag %v)", conn, expected, lastDelivered, plan.ReadyLag)}, flagsRaw
 		}
 		for _, s := range sentCopy {
 			if s.conn != conn || (s.kind != "tx" && s.kind != "update") {
@@ -227,6 +267,10 @@ func c17Run(plan *C17Plan) (*c16Violation, map[string]bool) {
 				expected++
 			}
 		}
+		// after a repeat request the next expected id is the one the application asked for until
+		// the server sends it again
+		modelNext = expected
+		lastDelivered = expected - 1
 	}
 	get := func(h *cliHandler) []del {
 		var out []del
@@ -244,10 +288,16 @@ func c17Run(plan *C17Plan) (*c16Violation, map[string]bool) {
 	if fmt.Sprint(d1) != fmt.Sprint(ref) {
 		return &c16Violation{"C17/delivery-differs-from-counter-model", fmt.Sprintf("server sent %v with ready values %v; delivered %v; the message-id counter model delivers %v", sentCopy, readyCopy, d1, ref)}, flagsRaw
 	}
-	if got := tc.c.NextMessageID(); got != lastDelivered+1 {
-		return &c16Violation{"C17/next-message-id", fmt.Sprintf("NextMessageID()=%d after delivering up to id %d", got, lastDelivered)}, flagsRaw
+	if got := tc.c.NextMessageID(); haveFirst && got != modelNext {
+		return &c16Violation{"C17/next-message-id", fmt.Sprintf("NextMessageID()=%d, the counter model expects %d next (last delivered id plus one, or the id of the last repeat request)", got, modelNext)}, flagsRaw
 	}
-	if plan.Resume {
+	lagged := false
+	for _, l := range plan.ReadyLag {
+		if l > 0 {
+			lagged = true
+		}
+	}
+	if plan.Resume && !lagged {
 		// end-to-end: exactly 1..Backlog, in order, once
 		if len(d1) != plan.Backlog {
 			return &c16Violation{"C17/resume/gap-or-repeat", fmt.Sprintf("a server resuming from the ready value over a backlog of %d notifications led to %d deliveries: %v", plan.Backlog, len(d1), d1)}, flagsRaw
@@ -262,14 +312,37 @@ func c17Run(plan *C17Plan) (*c16Violation, map[string]bool) {
 }
 
 func genC17(t *rapid.T) *C17Plan {
+	lags := func(n int) []int {
+		if rapid.IntRange(0, 2).Draw(t, "lagged") != 0 {
+			return nil
+		}
+		out := []int{0} // nothing to repeat on the first connection
+		for i := 1; i < n; i++ {
+			out = append(out, rapid.IntRange(0, 3).Draw(t, "lag"))
+		}
+		return out
+	}
+	pres := func(n int) []int {
+		if rapid.IntRange(0, 3).Draw(t, "pre") != 0 {
+			return nil
+		}
+		var out []int
+		for i := 0; i < n; i++ {
+			out = append(out, rapid.IntRange(0, 2).Draw(t, "npre"))
+		}
+		return out
+	}
 	if rapid.IntRange(0, 2).Draw(t, "mode") == 0 {
 		p := &C17Plan{Resume: true, Backlog: rapid.IntRange(1, 14).Draw(t, "backlog")}
 		for i, n := 0, rapid.IntRange(0, 3).Draw(t, "ncuts"); i < n; i++ {
 			p.Cuts = append(p.Cuts, rapid.IntRange(0, 6).Draw(t, "cut"))
 		}
+		p.ReadyLag = lags(len(p.Cuts) + 1)
+		p.PreAccept = pres(len(p.Cuts) + 1)
 		return p
 	}
 	p := &C17Plan{}
+	defer func() { p.ReadyLag = lags(len(p.Segments)); p.PreAccept = pres(len(p.Segments)) }()
 	for s, ns := 0, rapid.IntRange(1, 3).Draw(t, "nseg"); s < ns; s++ {
 		var sg C17Segment
 		for i, n := 0, rapid.IntRange(0, 9).Draw(t, "nitems"); i < n; i++ {
@@ -285,7 +358,7 @@ func genC17(t *rapid.T) *C17Plan {
 	return p
 }
 
-const c17Rule = "a real RemoteClient.Run (application declares ready with NextMessageID() on every accept, two handlers) against a scripted server: hostile mode streams tx/update/headers/in-sync messages whose ids are consecutive, duplicated, skipped or out of order over 1..3 connections that the server drops; resume mode is an honest server that resumes a backlog from each connection's ready value with drops at generated positions; oracle: reference id counter, identical handler sequences, NextMessageID == last delivered + 1, ready value on reconnect, and in resume mode exactly 1..N once; non-trivial = an irregular id or a reconnect; distinct by plan hash"
+const c17Rule = "a real RemoteClient.Run (application declares ready on every accept with NextMessageID(), or in a third of the plans with an id up to 3 lower to ask for a repeat; two handlers) against a scripted server (which in a quarter of the plans sends correctly numbered notifications before its accept): hostile mode streams tx/update/headers/in-sync messages whose ids are consecutive, duplicated, skipped or out of order over 1..3 connections that the server drops; resume mode is an honest server that resumes a backlog from each connection's ready value with drops at generated positions; oracle: reference id counter, identical handler sequences, NextMessageID == last delivered + 1, ready value on reconnect, and in resume mode exactly 1..N once; non-trivial = an irregular id or a reconnect; distinct by plan hash"
 
 func TestC17Order(t *testing.T) {
 	rep := verifkit.NewReport("C17", "TestC17Order", c17Rule)
